@@ -41,6 +41,8 @@ enum Park {
 
 #[derive(Default)]
 struct World {
+    free: std::collections::HashSet<usize>, // writers running without parking
+    free_f: std::collections::HashSet<usize>, // followers whose threads run without parking
     park: HashMap<Ent, Park>,
     arrivals: Vec<(Ent, String)>, // log of arrivals since last drain
     ranks: HashMap<u128, usize>,
@@ -82,7 +84,12 @@ fn install(sh: Arc<Shared>) {
         let ent = match name {
             "append.enter" | "append.after_id" | "append.after_commit" | "append.after_broadcast" => {
                 match actor {
-                    Some(Ent::W(i)) => Ent::W(i),
+                    Some(Ent::W(i)) => {
+                        if w.free.contains(&i) {
+                            return;
+                        }
+                        Ent::W(i)
+                    }
                     _ => return,
                 }
             }
@@ -95,11 +102,13 @@ fn install(sh: Arc<Shared>) {
             },
             "read.hist.before_send" | "read.hist.before_threshold" | "read.hist.before_done" => {
                 match w.tag2f.get(&tag) {
+                    Some(k) if w.free_f.contains(k) => return,
                     Some(k) => Ent::FH(*k),
                     None => return,
                 }
             }
             "read.live.after_recv" | "read.live.after_send" => match w.tag2f.get(&tag) {
+                Some(k) if w.free_f.contains(k) => return,
                 Some(k) => Ent::FL(*k),
                 None => return,
             },
@@ -196,13 +205,17 @@ pub fn main(args: &[String]) -> i32 {
             }
             "writer" => {
                 let w: usize = toks[1].parse().unwrap();
-                let ps = toks[2..]
-                    .iter()
-                    .map(|p| {
-                        let parts: Vec<&str> = p.split(':').collect();
-                        (parts[0].parse::<usize>().unwrap(), parts[1] == "e", parts[2] == "ok")
-                    })
-                    .collect();
+                let mut ps = Vec::new();
+                for p in &toks[2..] {
+                    let (p, reps) = match p.split_once('*') {
+                        Some((a, n)) => (a, n.parse::<usize>().unwrap()),
+                        None => (*p, 1),
+                    };
+                    let parts: Vec<&str> = p.split(':').collect();
+                    for _ in 0..reps {
+                        ps.push((parts[0].parse::<usize>().unwrap(), parts[1] == "e", parts[2] == "ok"));
+                    }
+                }
                 wpayloads.insert(w, ps);
             }
             "follower" => {
@@ -249,7 +262,10 @@ pub fn main(args: &[String]) -> i32 {
                 let exp: Vec<&str> = toks.iter().skip_while(|t| **t != "=>").skip(1).cloned().collect();
                 let mut actual: Vec<String> = Vec::new();
                 match label {
-                    "enter" | "tryenter" => {
+                    "enter" | "tryenter" | "burst" => {
+                        if label == "burst" {
+                            sh.m.lock().unwrap().free.insert(idx);
+                        }
                         let first = {
                             let w = sh.m.lock().unwrap();
                             !w.park.contains_key(&Ent::W(idx))
@@ -274,8 +290,10 @@ pub fn main(args: &[String]) -> i32 {
                                 w.arrivals.push((Ent::W(idx), "done".into()));
                                 sh2.cv.notify_all();
                             });
-                            wait_parked(&sh, &Ent::W(idx), "enter", long);
-                            sh.m.lock().unwrap().arrivals.retain(|(e, _)| *e != Ent::W(idx));
+                            if label != "burst" {
+                                wait_parked(&sh, &Ent::W(idx), "enter", long);
+                                sh.m.lock().unwrap().arrivals.retain(|(e, _)| *e != Ent::W(idx));
+                            }
                         }
                         release(&sh, &Ent::W(idx));
                     }
@@ -338,6 +356,46 @@ pub fn main(args: &[String]) -> i32 {
                         };
                         let _ = f.ctx_scope;
                         actual.push(s);
+                    }
+                    "drain" => {
+                        // not a model step: let the follower's threads run freely and take whatever
+                        // it still gets for a while
+                        {
+                            let mut w = sh.m.lock().unwrap();
+                            w.free_f.insert(idx);
+                            for e in [Ent::FH(idx), Ent::FL(idx)] {
+                                if let Some(Park::Parked(_)) = w.park.get(&e) {
+                                    w.park.insert(e, Park::Released);
+                                }
+                            }
+                            w.arrivals.retain(|(e, _)| *e != Ent::FH(idx) && *e != Ent::FL(idx));
+                            sh.cv.notify_all();
+                        }
+                        let f = followers.get(&idx).expect("follower");
+                        let mut last = Instant::now();
+                        let mut items: Vec<String> = Vec::new();
+                        while last.elapsed() < Duration::from_millis(400) && items.len() < 3000 {
+                            let mut g = f.rx.lock().unwrap();
+                            if let Some(rx) = g.as_mut() {
+                                match rx.try_recv() {
+                                    Ok(fr) => {
+                                        last = Instant::now();
+                                        let mut w = sh.m.lock().unwrap();
+                                        if fr.topic == "xs.threshold" || fr.topic == "xs.pulse" {
+                                            items.push(format!("item:{}", &fr.topic[3..]));
+                                        } else {
+                                            let c = ctx_idx_of(&ctxs, fr.context_id.to_u128()).map(|c| c.to_string()).unwrap_or("?".into());
+                                            items.push(format!("item:real#{}@{}", rank_of(&mut w, &fr), c));
+                                        }
+                                    }
+                                    Err(tokio::sync::mpsc::error::TryRecvError::Disconnected) => break,
+                                    Err(_) => {}
+                                }
+                            }
+                            drop(g);
+                            std::thread::sleep(Duration::from_millis(1));
+                        }
+                        actual.extend(items);
                     }
                     "probe" => {
                         // expected: closed (senders gone, queue empty) | draining (senders gone,
@@ -437,7 +495,7 @@ pub fn main(args: &[String]) -> i32 {
                     mismatches += 1;
                     writeln!(out, "MISMATCH {} | {} | expected {} | actual {}", ln, line, exp.join(" "), actual.join(" "))
                         .unwrap();
-                    if mismatches >= 1 {
+                    if mismatches >= 1 && std::env::var("XSV_CONTINUE").is_err() {
                         break; // after the first divergence the schedule is meaningless
                     }
                 }
